@@ -50,6 +50,11 @@ CHECKS = {
    "Two independently built keychains agree on keys and commitments (and commit equals amount*H + key*G on the harness's own context); created range proofs verify and rewind to exactly (amount, path, mode) with the same seed or the matching view key and to nothing with another seed; bit-flipped proofs never rewind to a different triple; blind_sum/split/add equal the harness's mod-N arithmetic byte for byte; transactions and coinbases from the builder validate, balance and their kernels verify. Sampled exploration.",
    "LegacyProofBuilder only at depth 3 with the regular switch and view keys only for SwitchCommitmentType::None on non-hardened suffixes (the documented domains); zero scalar results are outside the domain.",
    "DESIGN.md §5 C20"),
+ "C06": ("pbt", "exploration",
+   "twin (differential) execution under proptest-generated histories: chain A sees good and bad inputs, chain B only the good ones; state compared after every step, plus the C02 replay model",
+   "Histories of good blocks (forks, reorg runs, reopen) interleaved with bad inputs failing at each validation stage — PoW, header rules, body validation, coinbase rule, UTXO checks, sums, root/size mismatch detected after the block was applied to the working state, bad header batches (second header bad; wrong prev_root inside the header extension), failing validate_tx through the read-only extension — and valid losing-fork blocks. After every step head, state roots, the unspent scan over all known commitments, stored sums and spend records of the last 12 best-chain blocks, and the result of every later delivery are compared between the twins; finally both pass validate(false) and a reopen with identical roots. Sampled exploration.",
+   "Both twins run the code under test; divergence is the oracle, complemented by the independent replay model scan. header_head and remembered fork headers/blocks are excluded (statement).",
+   "DESIGN.md §5 C06"),
 }
 
 NOT_YET = {}
